@@ -97,7 +97,7 @@ Print Assumptions C02_complete_calls.
    SEVM.resolve_address_alias, handle_insufficient_fund_case, transfer_value and the OP_JUMP arm of
    SEVM.run).  V is the type of valuations of the symbolic inputs, `path` the set of valuations
    satisfying the current path, `chk c` the solver's answer for path /\ c (0 = unsat). *)
-From HV Require Import Gen.GenBranch Model.BranchPoints Proofs.BranchProofs.
+From HV Require Import Gen.GenBranch Gen.GenAssertBranch Model.BranchPoints Proofs.BranchProofs.
 
 (* address aliases: every valuation of the path whose (symbolic) address is not the test contract
    satisfies the condition of an explored alias -- an existing account or the empty-account
@@ -157,6 +157,22 @@ Theorem C02_symjump_invalid_refuted :
     forall t c, In (t, c) l -> c v = false.
 Proof. exact jump_invalid_destination_dropped. Qed.
 Print Assumptions C02_symjump_invalid_refuted.
+
+(* vm.assert*: an input on which the asserted relation is false is always covered by a state that ends
+   as a failed assertion (so the counterexample reaches the solver), and no input is dropped *)
+Theorem C02_assert_failure_reported :
+  forall (V : Type) (chk : cnd V -> Z) (path : V -> Prop) (c : cnd V) (v : V),
+    (forall c', chk c' = 0 -> forall v', path v' -> c' v' = false) ->
+    path v -> c v = false ->
+    exists k, In (true, k) (assert_alternatives V chk c) /\ k v = true.
+Proof. exact assert_failure_reported. Qed.
+Print Assumptions C02_assert_failure_reported.
+
+Theorem C02_assert_complete :
+  forall (V : Type) (chk : cnd V -> Z) (c : cnd V) (v : V),
+    exists f k, In (f, k) (assert_alternatives V chk c) /\ k v = true.
+Proof. exact assert_complete. Qed.
+Print Assumptions C02_assert_complete.
 
 (* non-vacuity: a two-account world, an oracle that answers `unknown` to everything, and a target
    that hits the second account: the covering alternative exists and names that account *)
